@@ -256,6 +256,43 @@ func runC03(r *Run) {
 	checkValueBits(r, tb)
 	tb.Done()
 
+	// ---- decode side of the type bits (shared with C19.read): struct and wire agree in both directions
+	r.Borrow("C19", map[string]string{"C19.read": "C03.typeread"})
+
+	// ---- re-encoding keeps the attribute list in step with the bytes
+	en := r.Rule("C03.encode", "WriteAttributes re-adds the saved attributes into the same backing array it restores afterwards: the list is truncated with a two-index reslice of the saved list (no capacity clamp, no fresh list), so the entries Add wrote (lengths, views into the new Raw) are the ones visible after Encode", 1)
+	if wa := p.Meth("Message", "WriteAttributes"); wa != nil {
+		r.Analysed(wa)
+		attrsF := FieldVar(p.Named("Message"), "Attributes")
+		var stores []*ssa.Store
+		for _, a := range fieldAccesses(wa, attrsF) {
+			if s, ok := a.Instr.(*ssa.Store); ok && a.Kind == "store" {
+				stores = append(stores, s)
+			}
+		}
+		en.Instance(fnName(wa), true, map[string]int{"attribute_list_stores": len(stores)})
+		okTrunc := false
+		for _, s := range stores {
+			sl, isSl := s.Val.(*ssa.Slice)
+			if !isSl {
+				continue
+			}
+			if c, isC := constInt(sl.High); sl.High != nil && isC && c == 0 {
+				if sl.Max != nil {
+					en.Violation(wa, instrPos(s), "Attributes = "+exprDepth(s.Val, 0), "the list is truncated with a capacity clamp: Add appends into a fresh array that is thrown away when the saved list is restored, so after Encode the struct shows the caller's stale entries (lengths, value slices) while the bytes carry the re-encoded ones")
+				} else if valueIsLoadOfField(sl.X, attrsF) {
+					okTrunc = true
+				}
+			}
+		}
+		if !okTrunc && len(stores) > 0 {
+			en.Violation(wa, wa.Pos(), "truncation of the attribute list", "WriteAttributes does not re-add into the saved list's own storage (undecided)")
+		}
+	} else {
+		en.Fail("(*Message).WriteAttributes", "not found")
+	}
+	en.Done()
+
 	// ---- build
 	bd := r.Rule("C03.build", "Build = Reset; WriteHeader; setters in argument order; first error returned", 1)
 	checkBuild(r, bd)
